@@ -193,7 +193,9 @@ class TxInput:
     def copy(cls, txin: "TxInput") -> "TxInput":
         """Deep copy of TxInput"""
 
-        return cls(txin.txid, txin.txout_index, txin.script_sig, txin.sequence)
+        return cls(
+            txin.txid, txin.txout_index, Script.copy(txin.script_sig), txin.sequence
+        )
 
 
 class TxWitnessInput:
@@ -232,7 +234,7 @@ class TxWitnessInput:
     def copy(cls, txwin: "TxWitnessInput") -> "TxWitnessInput":
         """Deep copy of TxWitnessInput"""
 
-        return cls(txwin.stack)
+        return cls(list(txwin.stack))
 
     def __str__(self) -> str:
         return str(
@@ -334,7 +336,7 @@ class TxOutput:
     def copy(cls, txout: "TxOutput") -> "TxOutput":
         """Deep copy of TxOutput"""
 
-        return cls(txout.amount, txout.script_pubkey)
+        return cls(txout.amount, Script.copy(txout.script_pubkey))
 
 
 class Sequence:
